@@ -79,6 +79,16 @@ func (vfs *BasePathFS) FromBasePath(path string) string {
 	return vfs.Join(path[:vl], path[len(vfs.basePath):], string(vfs.PathSeparator()))
 }
 
+// fromErrorPath returns a BasePathFS path from a path found in an error of the base file system.
+// A path that was not translated by ToBasePath (a relative path) is returned as it is.
+func (vfs *BasePathFS) fromErrorPath(path string) string {
+	if !strings.HasPrefix(path, vfs.basePath) {
+		return path
+	}
+
+	return vfs.FromBasePath(path)
+}
+
 // FromPathError restore paths in fs.PathError if necessary.
 func (vfs *BasePathFS) FromPathError(err error) error {
 	e, ok := err.(*fs.PathError)
@@ -86,7 +96,7 @@ func (vfs *BasePathFS) FromPathError(err error) error {
 		return err
 	}
 
-	return &fs.PathError{Op: e.Op, Path: vfs.FromBasePath(e.Path), Err: e.Err}
+	return &fs.PathError{Op: e.Op, Path: vfs.fromErrorPath(e.Path), Err: e.Err}
 }
 
 // FromLinkError restore paths in os.LinkError if necessary.
@@ -96,7 +106,7 @@ func (vfs *BasePathFS) FromLinkError(err error) error {
 		return err
 	}
 
-	return &os.LinkError{Op: e.Op, Old: vfs.FromBasePath(e.Old), New: vfs.FromBasePath(e.New), Err: e.Err}
+	return &os.LinkError{Op: e.Op, Old: vfs.fromErrorPath(e.Old), New: vfs.fromErrorPath(e.New), Err: e.Err}
 }
 
 // ToBasePath transforms a BasePathFS path to an internal path.
@@ -107,9 +117,12 @@ func (vfs *BasePathFS) ToBasePath(path string) string {
 	}
 
 	if vfs.IsAbs(path) {
+		// Clean clamps the ".." elements of a rooted path at the root :
+		// the result can't be outside of the base path.
+		path = vfs.Clean(path)
 		vl := avfs.VolumeNameLen(vfs, path)
 
-		return vfs.basePath + path[vl:]
+		return vfs.Join(vfs.basePath, path[vl:])
 	}
 
 	return path
